@@ -107,10 +107,12 @@ Qed.
 Lemma walk_no_consult p s b s' ev e : walk s p b = (s', ev) -> In e ev -> is_consult e = false.
 Proof.
   intros W Hin. apply walk_walked in W.
-  destruct W as [sk h rest Hp Hsk Hh Hplan Hcons Hev Hatt Hexc Harm | Hsk Hplan Hcons Hev Hatt Hexc Harm];
+  destruct W as [sk h rest Hp Hsk Hh Hplan Hcons Hev Hatt Hexc Harm | Hsk Hplan Hcons Hev Hatt Hexc Harm
+                | sk rest Hp Hne Hsk Hplan Hcons Hev Hatt Hel Hexc Harm];
     rewrite Hev in Hin.
   - apply in_app_iff in Hin. destruct Hin as [Hin|[<-|[]]]; [|reflexivity].
     apply in_map_iff in Hin. destruct Hin as (y & <- & _). reflexivity.
+  - apply in_map_iff in Hin. destruct Hin as (y & <- & _). reflexivity.
   - apply in_map_iff in Hin. destruct Hin as (y & <- & _). reflexivity.
 Qed.
 
@@ -161,6 +163,7 @@ Proof.
     destruct (negb (spec_armed s)); [inversion H; subst; destruct Hin|].
     destruct (completed (set_spec s false (spec_left s))); [inversion H; subst; destruct Hin|].
     destruct (attempts (set_spec s false (spec_left s))); [inversion H; subst; destruct Hin|].
+    destruct (elapsed (set_spec s false (spec_left s))); [inversion H; subst; destruct Hin|].
     destruct (send_request (set_spec s false (spec_left s)) false) as [s1 ev1] eqn:W. inversion H; subst.
     apply (walk_no_consult _ _ _ _ _ _ W) in Hin. discriminate.
   - inversion H; subst. destruct Hin.
@@ -187,8 +190,9 @@ Lemma send_request_cframe s b s' ev : send_request s b = (s', ev) -> cframe s s'
 Proof.
   intros W. pose proof (walk_frame_ok _ _ _ _ _ W) as F. apply walk_walked in W. destruct F.
   repeat split; auto.
-  destruct W as [sk h rest Hp Hsk Hh Hplan Hcons Hev Hatt Hexc Harm | Hsk Hplan Hcons Hev Hatt Hexc Harm];
-    rewrite Harm; [auto|destruct b; [discriminate|auto]].
+  destruct W as [sk h rest Hp Hsk Hh Hplan Hcons Hev Hatt Hexc Harm | Hsk Hplan Hcons Hev Hatt Hexc Harm
+                | sk rest Hp Hne Hsk Hplan Hcons Hev Hatt Hel Hexc Harm];
+    rewrite Harm; [auto|destruct b; [discriminate|auto]|destruct (borrowed s'); [discriminate|auto]].
 Qed.
 
 Lemma qon_cframe s h m cz s' ev : query_or_next s h m cz = (s', ev) -> cframe s s'.
@@ -334,6 +338,9 @@ Proof.
     destruct (negb (spec_armed s)); [inversion H; subst; apply Triv; reflexivity|].
     destruct (completed (set_spec s false (spec_left s))); [inversion H; subst; apply Triv; reflexivity|].
     destruct (attempts (set_spec s false (spec_left s))); [inversion H; subst; apply Triv; reflexivity|].
+    destruct (elapsed (set_spec s false (spec_left s))).
+    { inversion H; subst. destruct (on_timeout_same (set_spec s false (spec_left s))) as [[_ F]|[_ E]];
+        [apply Triv; [apply (sbo_retries _ _ F)|apply (sbo_ncons _ _ F)]|rewrite E; apply Triv; reflexivity]. }
     destruct (send_request (set_spec s false (spec_left s)) false) as [s1 ev1] eqn:W. inversion H; subst.
     pose proof (send_request_cframe _ _ _ _ W) as (F1 & F2 & _).
     assert (C1 : counted s s1 ev).
